@@ -12,11 +12,14 @@ def opUpload (args : List SExp) : Option OpResult := do
     let want :=
       if fault = "ok" || fault = "early2xx" || fault = "early2xx-stall" then "closed nil 0"
       else if fault = "early" then "closed http-412 0"
+      else if fault = "early308" then "closed http-308 0"
+      else if fault = "late300" then "closed http-300 0"
       else if fault = "partial" || fault = "partial-json" || fault = "partial-bin" then "closed http-507 0"
       else "closed other 0"
     pure ⟨want, fun got =>
       if got = want then []
-      else if got.startsWith "hang" || got.startsWith "second-upload-hangs" then [("C18", "upload-does-not-terminate")]
+      else if got.startsWith "hang" || got.startsWith "second-upload-hangs" then [("C18", "upload-does-not-terminate"), ("C14", "client-call-hangs")]
+      else if got.startsWith "closed nil" && want != "closed nil 0" then [("C18", "close-result-wrong"), ("C14", "failure-not-reported-by-close")]
       else if got.endsWith " 1" then [("C18", "goroutine-outlives-upload")]
       else [("C18", "close-result-wrong")]⟩
   | _ => none
